@@ -467,7 +467,7 @@ Section FlushCore.
               (forall g, In g (dfiles dd) -> fnum g < nxt /\ ftorn g = false) ->
               (forall fn h id, In (fn, REntry h id) (tagged (dfiles dd)) -> mpruned m < h -> has (midx m) h fn) ->
               Inv dd (mkMem false false false None nxt (mseq m) (mpruned m) (msince m) (mpend m) (midx m))
-                  (mkSpec (sack s) (sdur s) (spend s) (spend s))).
+                  (mkSpec (sack s) (sdur s) [] (spend s))).
     { intros dd Hdd Hal Hix. constructor; simpl; auto.
       - rewrite Hdur. auto.
       - intros _. constructor; simpl; auto. }
@@ -659,11 +659,11 @@ Proof.
   - destruct (accepted r); simpl; auto. repeat split; auto. apply pos_app; auto.
     intros h' id' [Hx|[]]. inversion Hx.
   - destruct r as [| | |l|l]; simpl; auto using pos_app, pos_nil.
-    + destruct l; repeat split; auto using pos_app.
-    + destruct l; repeat split; auto using pos_app.
+    + destruct l; repeat split; auto using pos_app, pos_nil.
+    + destruct l; repeat split; auto using pos_app, pos_nil.
   - destruct r as [| | |l|l]; simpl; auto using pos_app, pos_nil.
-    + destruct l; repeat split; auto using pos_app.
-    + destruct l; repeat split; auto using pos_app.
+    + destruct l; repeat split; auto using pos_app, pos_nil.
+    + destruct l; repeat split; auto using pos_app, pos_nil.
   - destruct (accepted r); simpl; auto. repeat split; auto using pos_nil.
 Qed.
 
@@ -763,7 +763,7 @@ Proof.
   intros Hr1. subst r1.
   destruct (fail_repaired_alive _ _ _ _ _ E1) as [Ha1 [Hp Hne]].
   (* the store was alive before: otherwise the flush would have been refused *)
-  assert (Hs1 : sstep s o1 (RFail false) = mkSpec (sack s) (sdur s) (spend s) (spend s)) by reflexivity.
+  assert (Hs1 : sstep s o1 (RFail false) = mkSpec (sack s) (sdur s) [] (spend s)) by reflexivity.
   rewrite Hs1 in *. simpl.
   destruct M0 as [R0 [_ _]]. destruct M1 as [R1 [_ _]]. simpl in R1.
   assert (Hdur : sdur s = sack s).
